@@ -1288,3 +1288,39 @@ Proof.
   split; [|discriminate]. simpl in D. destruct (bytes_eqb msg ex_msg) eqn:E; [|discriminate].
   apply bytes_eqb_eq in E. exact E.
 Qed.
+
+(* ------------------------------------------------------------------ *)
+(* shape of the description                                            *)
+(* ------------------------------------------------------------------ *)
+Theorem description_shape : forall c P private stream i,
+  pgp_key c P private stream = Ok i ->
+  exists e, read_entity c P (events_of c P stream) = Ok e /\
+    first_key (events_of c P stream) = Some (e_primary e) /\
+    i_desc i = (if private then bs "GPG/PGP private key" else bs "GPG/PGP public key") /\
+    i_attrs i = describe_key (p_H P) (e_primary e) /\
+    i_children i = map (identity_info c (e_primary e)) (sort_ids (e_ids e)) ++ map (subkey_info c (p_H P)) (e_subkeys e).
+Proof.
+  intros c P private stream i H. unfold pgp_key in H. apply bind_ok' in H. destruct H as [e [E H]].
+  injection H as <-. exists e. split; auto. split; [|simpl; auto].
+  destruct (read_entity_bound _ _ _ _ E) as (F & _). exact F.
+Qed.
+
+(* a hashed key-flags subpacket (type 27, one-octet length) whose first octet is f adds exactly the
+   defined bits of f to the flags of the signature *)
+Theorem flags_subpacket : forall emb st f more rest, 2 + lenN more < 192 ->
+  parse_subpacket emb true st ((2 + lenN more) :: 27 :: f :: more ++ rest) =
+    Ok (mkspst (sp_created st) (sp_keylife st) (sp_issuer st) true
+               (N.lor (sp_flags st) (N.land f known_flag_bits)) (sp_emb st), rest).
+Proof.
+  intros emb st f more rest Hlt. apply N.ltb_lt in Hlt.
+  unfold parse_subpacket. rewrite Hlt.
+  assert (R : read_n (2 + lenN more) (27 :: f :: more ++ rest) = Some (27 :: f :: more, rest)).
+  { unfold read_n.
+    assert (L : lenN (27 :: f :: more ++ rest) = 2 + lenN more + lenN rest).
+    { unfold lenN. simpl length. rewrite app_length. lia. }
+    rewrite L. replace (2 + lenN more <=? 2 + lenN more + lenN rest) with true by (symmetry; apply N.leb_le; lia).
+    replace (N.to_nat (2 + lenN more)) with (length (27 :: f :: more)) by (unfold lenN; simpl length; lia).
+    change (27 :: f :: more ++ rest) with ((27 :: f :: more) ++ rest).
+    rewrite take_app_exact, drop_app_exact. reflexivity. }
+  rewrite R. reflexivity.
+Qed.
